@@ -14,10 +14,12 @@ def op(o, a=0):
     return {"o": o, "a": a, "v": 0}
 
 
-def term(k, s=None, catch=False, ret=0, reuse=0):
+def term(k, s=None, catch=False, ret=0, reuse=0, cscope=0):
     """ret (only with k == "return"): return the task object of spawned task `ret` itself instead of a value;
     reuse (only with k == "yield"): yield again the very object that was yielded at segment `reuse`"""
-    return {"k": k, "s": s if s is not None else S("N"), "catch": bool(catch), "ret": ret, "reuse": reuse}
+    # cscope (with catch): 1 = the try/except also encloses the with-blocks entered in this segment (they are left by the
+    # exception before it is caught), 0 = it encloses the yield only
+    return {"k": k, "s": s if s is not None else S("N"), "catch": bool(catch), "ret": ret, "reuse": reuse, "cscope": cscope}
 
 
 def seg(ops, t):
@@ -67,6 +69,8 @@ PROFILES = {
     "overridefaults": dict(BASE, ctx_types=("override", "attr"), p_ctx=0.5, nvars=2, p_read=0.4,
                            flush_modes=("ok", "itemerr", "raise"), p_raise=0.12, p_catch=0.4),
     "nonasync": dict(BASE, ctx_types=("nonasync", "async"), p_ctx=0.5),
+    "nonasyncfaults": dict(BASE, ctx_types=("nonasync", "nonasync", "async"), p_ctx=0.6, p_catch=0.6, p_raise=0.15, nseg=(2, 4),
+                           flush_modes=("ok", "itemerr", "raise"), p_errleaf=0.08),
     "spawn": dict(BASE, p_spawn=0.2, flush_modes=("ok", "spawn")),
     "session": dict(BASE, ncalls=3, flush_modes=("ok", "itemerr", "raise", "skip"), p_raise=0.12, p_sync=0.2,
                     p_catch=0.3, ctx_types=("async",), p_ctx=0.3, p_errleaf=0.05),
@@ -302,7 +306,9 @@ class Gen(object):
                 if p["p_rep"]:
                     _add_reps(s, r, p["p_rep"])
                 yielded += [x["n"] for x in _leaves(s) if x["g"] == "T"]
-                segs.append(seg(ops, term("yield", s, r.random() < p["p_catch"])))
+                cat = r.random() < p["p_catch"]
+                entered_here = any(o["o"] == "enter" for o in ops) and not any(o["o"] == "exit" for o in ops)
+                segs.append(seg(ops, term("yield", s, cat, cscope=1 if (cat and entered_here and r.random() < 0.5) else 0)))
         return {"segs": segs}
 
     def build(self):
